@@ -230,3 +230,77 @@ package calc
 //@   ghost at call flushVTEPAdds: c02VTEPAdds = true
 //@   ghost at call flushRouteAdds: check c02VTEPAdds
 //@   ensures c02Sets && c02Deltas && c02Pols && c02Profs && c02Eps && c02EpDels && c02ProfDels && c02PolDels && c02RouteDels && c02VTEPAdds
+
+//@ -- C02/C05: the pending-update maps.  Activating (or updating) an object always queues its latest content,
+//@ -- and cancels a queued removal; deactivating (removing) it always squashes the queued update, and queues a
+//@ -- removal only if the dataplane was sent the object.  (The sets of sent objects / queued removals are
+//@ -- set.Set containers, not modelled: only the calls made on them are constrained.)
+//@ ghost c02Sent bool
+//@ ghost c02Cancelled bool
+//@ func (*EventSequencer).OnPolicyActive
+//@   property C02
+//@   option safety off
+//@   option stable (*EventSequencer).pendingPolicyUpdates
+//@   requires buf != nil && buf.pendingPolicyUpdates != nil && !c02Cancelled
+//@   ghost at call Discard: c02Cancelled = true
+//@   ensures c02Cancelled && (key in buf.pendingPolicyUpdates) && buf.pendingPolicyUpdates[key] == rules
+//@ func (*EventSequencer).OnPolicyInactive
+//@   property C02
+//@   option safety off
+//@   option stable (*EventSequencer).pendingPolicyUpdates, map[model.PolicyKey]*ParsedRules
+//@   requires buf != nil && !c02Sent
+//@   ghost at call Contains: c02Sent = res
+//@   ghost at call Add: check c02Sent
+//@   ensures !(key in buf.pendingPolicyUpdates)
+//@ func (*EventSequencer).OnProfileActive
+//@   property C02, C05
+//@   option safety off
+//@   option stable (*EventSequencer).pendingProfileUpdates
+//@   requires buf != nil && buf.pendingProfileUpdates != nil && !c02Cancelled
+//@   ghost at call Discard: c02Cancelled = true
+//@   ensures c02Cancelled && (key in buf.pendingProfileUpdates) && buf.pendingProfileUpdates[key] == rules
+//@ func (*EventSequencer).OnProfileInactive
+//@   property C02
+//@   option safety off
+//@   option stable (*EventSequencer).pendingProfileUpdates, map[model.ProfileRulesKey]*ParsedRules
+//@   requires buf != nil && !c02Sent
+//@   ghost at call Contains: c02Sent = res
+//@   ghost at call Add: check c02Sent
+//@   ensures !(key in buf.pendingProfileUpdates)
+//@ func (*EventSequencer).OnEndpointTierUpdate
+//@   property C02
+//@   option safety off
+//@   option stable (*EventSequencer).pendingEndpointUpdates, map[model.Key]endpointUpdate
+//@   requires buf != nil && buf.pendingEndpointUpdates != nil && !c02Sent && !c02Cancelled
+//@   ghost at call Contains: c02Sent = res
+//@   ghost at call Add: check c02Sent
+//@   ghost at call Discard: c02Cancelled = true
+//@   ensures endpoint == nil ==> !(endpointKey in buf.pendingEndpointUpdates)
+//@   ensures endpoint != nil ==> c02Cancelled && (endpointKey in buf.pendingEndpointUpdates)
+//@ func (*EventSequencer).OnVTEPUpdate
+//@   property C02
+//@   option safety off
+//@   option stable (*EventSequencer).pendingVTEPUpdates, (*proto.VXLANTunnelEndpointUpdate).Node
+//@   requires buf != nil && buf.pendingVTEPUpdates != nil && update != nil && !c02Cancelled
+//@   ghost at call Discard: c02Cancelled = true
+//@   ensures c02Cancelled && (update.Node in buf.pendingVTEPUpdates) && buf.pendingVTEPUpdates[update.Node] == update
+//@ func (*EventSequencer).OnVTEPRemove
+//@   property C02
+//@   option safety off
+//@   option stable (*EventSequencer).pendingVTEPUpdates, map[string]*proto.VXLANTunnelEndpointUpdate
+//@   requires buf != nil && !c02Sent
+//@   ghost at call Contains: c02Sent = res
+//@   ghost at call Add: check c02Sent
+//@   ensures !(dst in buf.pendingVTEPUpdates)
+//@ func (*EventSequencer).OnRouteUpdate
+//@   property C02
+//@   option safety off
+//@   requires buf != nil && update != nil && !c02Cancelled
+//@   ghost at call Discard: c02Cancelled = true
+//@   ensures c02Cancelled
+//@ func (*EventSequencer).OnRouteRemove
+//@   property C02
+//@   option safety off
+//@   requires buf != nil && !c02Sent
+//@   ghost at call Contains: c02Sent = res
+//@   ghost at call Add: check c02Sent
